@@ -63,13 +63,13 @@ static SERVERS: OnceLock<(SocketAddr, SocketAddr)> = OnceLock::new();
 fn servers() -> (SocketAddr, SocketAddr) {
     *SERVERS.get_or_init(|| {
         let server = Server::new(router());
-        let l = server.listen("127.0.0.1:0").unwrap();
+        let l = server.listen(crate::util::lo0().as_str()).unwrap();
         let a1 = l.local_addr().unwrap();
         std::thread::spawn(move || {
             let _ = server.serve(l);
         });
         let a2 = block_on(async {
-            let l = AsyncServer::listen("127.0.0.1:0").await.unwrap();
+            let l = AsyncServer::listen(crate::util::lo0().as_str()).await.unwrap();
             let a = l.local_addr().unwrap();
             tokio::spawn(async move {
                 let _ = AsyncServer::new(router()).serve(l).await;
